@@ -1,4 +1,5 @@
 import HC.Props.C09
+import HC.Proto.EventRace
 /-!
 # C08 — send backpressure is applied, bounded, and always released (HTTP/2 send path)
 
@@ -322,5 +323,42 @@ example :
     (runOk (init 65535 16384) [.open_ 1 0, .push 1 20000, .push 1 20000, .pick 1, .park, .winStream 1 30000, .wake,
         .pick 1, .sent 1, .pick 1, .sent 1, .pushWake 1]).map
       (fun s => ((s.str 1).buf, (s.str 1).pusher, (s.str 1).sent)) = some (10000, .idle, 30000) := by decide
+
+/-! ## Several senders waiting on one stream buffer (WebSocket over HTTP/2): nobody is left behind (F114) -/
+
+section several_waiters
+open HC.Proto
+
+/-- **no waiting sender is orphaned, as the code is now**: for every interleaving of any number of tasks calling
+    `wait()` / `set()` / `clear()` on one `EventWrapper` of the trio worker (the tail of `StreamBuffer.push` is
+    `wait(); clear()`, `pop` and `close` call `set()`), whoever is blocked is blocked on the event object in use - so the
+    next `set()` (the buffer has drained, the connection has closed) wakes every one of them -/
+theorem waiting_senders_never_orphaned (ops : List EventRace.Op) :
+    (∀ w ∈ (EventRace.run EventRace.current {} ops).waiting, w.2 = (EventRace.run EventRace.current {} ops).gen) ∧
+    (EventRace.step EventRace.current (EventRace.run EventRace.current {} ops) .set).waiting = [] := by
+  have hc : EventRace.current = true := rfl
+  rw [hc]
+  have h := EventRace.inv_run ops {} EventRace.inv_init
+  refine ⟨h.onCurrent, ?_⟩
+  simp only [EventRace.step]
+  apply List.filter_eq_nil_iff.mpr
+  intro w hw
+  simp [h.onCurrent w hw]
+
+/-- **before the repair (/repo b3e2f6b) it was false**: `clear()` replaced the event whatever its state.  Two senders
+    blocked on one buffer, the buffer drains (`set`), the first to run clears and - the buffer full again - waits on the
+    new object, the second to run clears too: the first is now blocked on an object that is not in use, and no number of
+    later `set()`s (or `clear()`s) wakes it -/
+theorem unguarded_clear_orphaned_a_sender :
+    let e := EventRace.run false {} [.wait 1, .wait 2, .set, .clear, .wait 2, .clear]
+    e.waiting = [(2, 1)] ∧ e.gen = 2 ∧
+    (EventRace.run false e [.set, .clear, .set, .set, .clear, .set]).waiting = [(2, 1)] := by decide
+
+-- non-vacuity: the same interleaving on the code as it is: the second clear() finds the event unset and leaves it alone,
+-- the next set() wakes task 2
+example : let e := EventRace.run true {} [.wait 1, .wait 2, .set, .clear, .wait 2, .clear]
+    e.waiting = [(2, 1)] ∧ e.gen = 1 ∧ (EventRace.run true e [.set]).waiting = [] := by decide
+
+end several_waiters
 
 end HC.Props.C08
